@@ -1,8 +1,136 @@
-From Coq Require Import List NArith Bool.
-Require Import Verif.Model.C05_Types Verif.Gen.C05_CacheLayout Verif.Model.C05_Codec.
+(* C05 — the cache never serves wrong bytes under crashes, truncation, concurrency.
+   ONLY statements closed by [exact]; each followed by Print Assumptions.
+   H is sha256: a variable; its collision-freedom on the stored contents (H_cf_on) is an explicit premise.
+   gen_layout / gen_protocol are regenerated from lintcmd/cache/cache.go on every run. *)
+From Coq Require Import List NArith ZArith Bool.
+Import ListNotations.
+Require Import Verif.Model.C05_Types Verif.Gen.C05_CacheLayout Verif.Model.C05_Codec Verif.Model.C05_FS.
+Require Import Verif.Proofs.C05_Codec Verif.Proofs.C05_FSLemmas Verif.Proofs.C05_FS Verif.Proofs.C05.
+Open Scope N_scope.
+
+(* ---- finite obligations on the regenerated tables: the code still has the layout and the protocol shape
+        that format_entry / parse_entry / pstep transcribe ---- *)
 Theorem c05_layout_ok : layout_eqb gen_layout canonical_layout = true.
 Proof. exact (eq_refl true). Qed.
 Print Assumptions c05_layout_ok.
+
 Theorem c05_protocol_ok : protocol_eqb gen_protocol canonical_protocol = true.
 Proof. exact (eq_refl true). Qed.
 Print Assumptions c05_protocol_ok.
+
+(* ---- codec ---- *)
+(* what putIndexEntry writes, get reads back *)
+Theorem parse_format : forall k o sz tm, wf_id k -> wf_id o -> sz <= max_int64 -> tm <= max_int64 ->
+  parse_entry k (format_entry k o sz tm) = Some (o, sz, tm).
+Proof. exact parse_format_proof. Qed.
+Print Assumptions parse_format.
+
+(* every strict prefix of an entry (a torn or truncated index file) is a miss, under any key *)
+Theorem parse_rejects_prefix : forall k o sz tm k' b, wf_id k -> wf_id o -> sz <= max_int64 -> tm <= max_int64 ->
+  strict_prefix b (format_entry k o sz tm) -> parse_entry k' b = None.
+Proof. exact parse_rejects_prefix_proof. Qed.
+Print Assumptions parse_rejects_prefix.
+
+Theorem parse_rejects_longer : forall k o sz tm k' c, wf_id k -> wf_id o -> sz <= max_int64 -> tm <= max_int64 ->
+  c <> [] -> parse_entry k' (format_entry k o sz tm ++ c) = None.
+Proof. exact parse_rejects_longer_proof. Qed.
+Print Assumptions parse_rejects_longer.
+
+(* ANY bytes that parse under key k embed (the hex of) k; hence an entry written for another key is a miss *)
+Theorem parse_checks_embedded_id : forall k e r, parse_entry k e = Some r -> embedded_id e = Some k.
+Proof. exact parse_checks_id. Qed.
+Print Assumptions parse_checks_embedded_id.
+
+Theorem parse_rejects_other_id : forall k k' o sz tm, wf_id k -> wf_id o -> sz <= max_int64 -> tm <= max_int64 ->
+  k' <> k -> parse_entry k' (format_entry k o sz tm) = None.
+Proof. exact parse_rejects_other_id_proof. Qed.
+Print Assumptions parse_rejects_other_id.
+
+(* ---- state machine ---- *)
+Theorem inv_init : forall H, Inv H init_state.
+Proof. exact inv_init. Qed.
+Print Assumptions inv_init.
+
+(* every step of every process (Put, Get, GetFile, GetBytes, Trim: one system call each), process creation,
+   process death at any point, deletion of any file at any point, truncation of any file to any length while no
+   descriptor is open on it, utimes and trim.txt surgery preserve the invariant *)
+Theorem inv_step : forall H, (forall x, wf_id (H x)) -> forall s l s',
+  Inv H s -> label_ok l = true -> step H s l = Some s' -> H_cf_on H (st_stored s') -> Inv H s'.
+Proof. exact inv_step_proof. Qed.
+Print Assumptions inv_step.
+
+(* hence in every state reachable by any interleaving of any number of processes and faults *)
+Theorem inv_reachable : forall H, (forall x, wf_id (H x)) -> forall s,
+  reachable H s -> H_cf_on H (st_stored s) -> Inv H s.
+Proof. exact inv_reachable_proof. Qed.
+Print Assumptions inv_reachable.
+
+(* GetFile: a returned path held, at the moment of return (snap), exactly a content stored under that key *)
+Theorem getfile_sound : forall H, (forall x, wf_id (H x)) -> forall s p k o sz snap,
+  reachable H s -> H_cf_on H (st_stored s) -> nth_error (st_procs s) p = Some (PDone (RFile k o sz snap)) ->
+  exists x, In (k, x) (st_stored s) /\ o = H x /\ sz = xsize x /\ snap = Some x.
+Proof. exact getfile_sound_proof. Qed.
+Print Assumptions getfile_sound.
+
+(* the snapshot is the content of the returned path in the very state in which GetFile returned *)
+Theorem getfile_snapshot : forall H c fs pcv fs' k o sz snap,
+  pstep H c fs pcv = Some (fs', PDone (RFile k o sz snap)) ->
+  fs' = fs /\ snap = read_path fs (FD o) /\ pcv = PGFStat k o sz.
+Proof. exact getfile_snapshot_proof. Qed.
+Print Assumptions getfile_snapshot.
+
+(* GetBytes: returned bytes are exactly a content stored under that key *)
+Theorem getbytes_sound : forall H, (forall x, wf_id (H x)) -> forall s p k b,
+  reachable H s -> H_cf_on H (st_stored s) -> nth_error (st_procs s) p = Some (PDone (RBytes k b)) ->
+  In (k, b) (st_stored s).
+Proof. exact getbytes_sound_proof. Qed.
+Print Assumptions getbytes_sound.
+
+Theorem get_sound : forall H, (forall x, wf_id (H x)) -> forall s p k o sz tm,
+  reachable H s -> H_cf_on H (st_stored s) -> nth_error (st_procs s) p = Some (PDone (RGet k o sz tm)) ->
+  exists x, In (k, x) (st_stored s) /\ o = H x /\ sz = xsize x.
+Proof. exact get_sound_proof. Qed.
+Print Assumptions get_sound.
+
+(* one writer killed after ANY number of its steps (cs arbitrary), then any lookup with any chunking: a hit is x *)
+Theorem crash_anywhere : forall H, (forall x, wf_id (H x)) -> forall k x cs cs' o s r,
+  (forall y, H y = H x -> y = x) ->
+  match o with OpPut _ _ => False | _ => True end ->
+  exec H init_state (LSpawn (OpPut k x) :: map (LStep 0) cs ++ LCrash 0 :: LSpawn o :: map (LStep 1) cs') = Some s ->
+  nth_error (st_procs s) 1 = Some (PDone r) ->
+  single_sound H k x r.
+Proof. exact crash_anywhere_proof. Qed.
+Print Assumptions crash_anywhere.
+
+Theorem trunc_delete_safe : forall H, (forall x, wf_id (H x)) -> forall s p n now s',
+  Inv H s -> H_cf_on H (st_stored s) ->
+  (step H s (LTrunc p n now) = Some s' \/ step H s (LDelete p) = Some s') -> Inv H s'.
+Proof. exact trunc_delete_safe_proof. Qed.
+Print Assumptions trunc_delete_safe.
+
+(* whatever is readable at <H x>-d at any time is a prefix of x (what a caller of GetFile can see later) *)
+Theorem data_path_prefix : forall H s k x d,
+  Inv H s -> H_cf_on H (st_stored s) -> In (k, x) (st_stored s) ->
+  read_path (st_fs s) (FD (H x)) = Some d -> prefix d x.
+Proof. exact data_path_prefix_proof. Qed.
+Print Assumptions data_path_prefix.
+
+(* re-putting a content (under any key) never un-commits an entry committed for it: no O_TRUNC, same bytes *)
+Theorem same_content_idempotent : forall H, (forall x, wf_id (H x)) -> forall s p c s' pcv k x,
+  Inv H s -> H_cf_on H (st_stored s) -> committed H (st_fs s) k x ->
+  nth_error (st_procs s) p = Some pcv -> put_content pcv = Some x ->
+  step H s (LStep p c) = Some s' -> committed H (st_fs s') k x.
+Proof. exact same_content_idempotent_proof. Qed.
+Print Assumptions same_content_idempotent.
+
+(* the quiescence premise is necessary: with ONE truncation of the data file while its writer holds it open,
+   GetFile returns the path of a file whose content was never stored (replayed on the implementation by the
+   histories of kind midwrite-truncate) *)
+Theorem midwrite_truncate_refuted :
+  exists (H : list N -> list N) (ls : list label) (s : state) (p : nat) (k o : list N) (sz : N) (y : list N),
+    (forall x, wf_id (H x)) /\ exec H init_state ls = Some s /\ H_cf_on H (st_stored s) /\
+    length (filter (fun l => negb (label_ok l)) ls) = 1%nat /\
+    nth_error (st_procs s) p = Some (PDone (RFile k o sz (Some y))) /\
+    ~ In (k, y) (st_stored s).
+Proof. exact midwrite_truncate_refuted_proof. Qed.
+Print Assumptions midwrite_truncate_refuted.
